@@ -1,5 +1,58 @@
+import BlockCiphers.Proofs.MagmaSpec
+import BlockCiphers.Proofs.BeltSpec
 /-
-C07 — theorem file (property theorems only).  Filled in as the models it needs are merged; see DESIGN §7 C07.
+C07 — Kuznyechik, Magma/GOST 28147-89 and BelT conform to their standards
+GENERATED statement file (tools/gen_thm.py): every theorem below restates, verbatim, a theorem of a Proofs/ module
+and is proved by applying it.  ONLY property theorems and non-vacuity examples live in Thm/.
+Magma / Gost89 for ALL S-box sets (the set is a parameter, not required to be bijective) and BelT block: full.
+Kuznyechik: added when Proofs/Kuznyechik* are merged.
 -/
-namespace BC.Thm.C07
-end BC.Thm.C07
+
+namespace BC.Magma
+/-- C07 (Magma / GOST 28147-89): for EVERY S-box set, key and block the crate's encryption is the
+32-round network `E` of the standard over that set -/
+theorem C07.gost89_encrypt_eq_spec (sbox : SmallSbox) (key : BitVec 256) (b : BitVec 64) :
+    encrypt sbox (new key) b = Spec.Magma.E sbox key b :=
+  _root_.BC.Magma.encrypt_eq_spec sbox key b
+end BC.Magma
+
+namespace BC.Magma
+theorem C07.gost89_decrypt_eq_spec (sbox : SmallSbox) (key : BitVec 256) (b : BitVec 64) :
+    decrypt sbox (new key) b = Spec.Magma.D sbox key b :=
+  _root_.BC.Magma.decrypt_eq_spec sbox key b
+end BC.Magma
+
+namespace BC.Magma
+/-- every entry of the expanded table, for EVERY S-box set -/
+theorem C07.genExpSbox_get (sbox : SmallSbox) (t : Fin 4 × Fin 16 × Fin 16) :
+    expRd (genExpSbox sbox) (expPos t) = expVal sbox t :=
+  _root_.BC.Magma.genExpSbox_get sbox t
+end BC.Magma
+
+namespace BC.Magma
+/-- C07 for `Magma = Gost89<Tc26>` -/
+theorem C07.magma_encrypt_eq_spec (key : BitVec 256) (b : BitVec 64) :
+    encrypt Tc26 (new key) b = Spec.Magma.magmaE key b :=
+  _root_.BC.Magma.magma_encrypt_eq_spec key b
+end BC.Magma
+
+namespace BC.Magma
+theorem C07.magma_decrypt_eq_spec (key : BitVec 256) (b : BitVec 64) :
+    decrypt Tc26 (new key) b = Spec.Magma.magmaD key b :=
+  _root_.BC.Magma.magma_decrypt_eq_spec key b
+end BC.Magma
+
+namespace BC.Belt
+/-- C07 (BelT): `BeltBlock::encrypt_block` (= `belt_block_raw` on the little-endian words) is belt-block
+encryption of STB 34.101.31 §6.1.3, for every key and block -/
+theorem C07.belt_encrypt_eq_spec (K : BitVec 256) (X : BitVec 128) :
+    encrypt (new K) X = Spec.Belt.blockEnc K X :=
+  _root_.BC.Belt.encrypt_eq_spec K X
+end BC.Belt
+
+namespace BC.Belt
+/-- C07 (BelT): `BeltBlock::decrypt_block` is belt-block decryption of §6.1.4 -/
+theorem C07.belt_decrypt_eq_spec (K : BitVec 256) (Y : BitVec 128) :
+    decrypt (new K) Y = Spec.Belt.blockDec K Y :=
+  _root_.BC.Belt.decrypt_eq_spec K Y
+end BC.Belt
